@@ -178,6 +178,7 @@ func pkg/forkexec/vfork.RawVforkSyscall
   params trap a1 a2 a3
   assigns K.clone_flags, K.clone3, K.clone_cgroup, K.last_trap, K.last_errno
   ensures K.last_trap == trap && K.last_errno == uintptr(err)
+  ensures err == 0 ==> r1 < 4194305
   ensures trap == 56 ==> K.clone_flags == a1 && !K.clone3
   ensures trap == 435 ==> K.clone3 && K.clone_flags == uintptr(deref_as(ptr(a1), forkexec.cloneArgs).flags) && K.clone_cgroup == uintptr(deref_as(ptr(a1), forkexec.cloneArgs).cgroup)
 """)
